@@ -444,4 +444,161 @@ theorem rust_instantiate_text_is_the_model (vars : List VId) (plugs : List Pat) 
     Gen.Rust.instantiate_in_place vars plugs p = Pat.inst (Pat.lookupPlug vars plugs) p :=
   (RustInstTie.instantiate_in_place_eq vars plugs p).trans (rust_instantiate_is_the_model vars plugs hlen p hs)
 
+/-! ## "exactly the free occurrences": nothing of the variable is left, nothing else is touched, idempotence -/
+
+/-- "replaces EXACTLY the free occurrences", first half: after the substitution no free occurrence of the variable is left
+(when the plug has none) — the judgement `e_fresh` of the checker accepts the result -/
+theorem substE_eliminates (x : VId) (plug : Pat) (hp : plug.eFresh x = true) :
+    ∀ p : Pat, concrete p = true → (substE x plug p).eFresh x = true := by
+  intro p; induction p with
+  | evar y => intro _; simp only [substE]; split
+              · exact hp
+              · rename_i h; simp [eFresh, h]
+  | ex y p ih => intro hc; simp [concrete] at hc; simp only [substE]; split
+                 · rename_i h; simp [eFresh, h]
+                 · simp [eFresh, ih hc]
+  | imp l r ihl ihr => intro hc; simp [concrete] at hc; simp [substE, eFresh, ihl hc.1, ihr hc.2]
+  | app l r ihl ihr => intro hc; simp [concrete] at hc; simp [substE, eFresh, ihl hc.1, ihr hc.2]
+  | mu Y p ih => intro hc; simp [concrete] at hc; simp [substE, eFresh, ih hc]
+  | svar _ => intro _; simp [substE, eFresh]
+  | sym _ => intro _; simp [substE, eFresh]
+  | _ => intro hc; simp [concrete] at hc
+
+theorem substS_eliminates (X : VId) (plug : Pat) (hp : plug.sFresh X = true) :
+    ∀ p : Pat, concrete p = true → (substS X plug p).sFresh X = true := by
+  intro p; induction p with
+  | svar y => intro _; simp only [substS]; split
+              · exact hp
+              · rename_i h; simp [sFresh, h]
+  | mu y p ih => intro hc; simp [concrete] at hc; simp only [substS]; split
+                 · rename_i h; simp [sFresh, h]
+                 · simp [sFresh, ih hc]
+  | imp l r ihl ihr => intro hc; simp [concrete] at hc; simp [substS, sFresh, ihl hc.1, ihr hc.2]
+  | app l r ihl ihr => intro hc; simp [concrete] at hc; simp [substS, sFresh, ihl hc.1, ihr hc.2]
+  | ex Y p ih => intro hc; simp [concrete] at hc; simp [substS, sFresh, ih hc]
+  | evar _ => intro _; simp [substS, sFresh]
+  | sym _ => intro _; simp [substS, sFresh]
+  | _ => intro hc; simp [concrete] at hc
+
+/-- second half: nothing else is touched — a variable that is fresh in the pattern and in the plug is fresh in the result -/
+theorem substE_preserves_eFresh (x y : VId) (plug : Pat) (hp : plug.eFresh y = true) :
+    ∀ p : Pat, p.eFresh y = true → (substE x plug p).eFresh y = true := by
+  intro p; induction p with
+  | evar z => intro h; simp only [substE]; split
+              · exact hp
+              · exact h
+  | ex z p ih => intro h; simp only [substE]; split
+                 · exact h
+                 · simp [eFresh] at h ⊢; rcases h with h | h
+                   · exact Or.inl h
+                   · exact Or.inr (ih h)
+  | imp l r ihl ihr => intro h; simp [eFresh] at h; simp [substE, eFresh, ihl h.1, ihr h.2]
+  | app l r ihl ihr => intro h; simp [eFresh] at h; simp [substE, eFresh, ihl h.1, ihr h.2]
+  | mu Y p ih => intro h; simp [eFresh] at h; simp [substE, eFresh, ih h]
+  | _ => intro h; simpa [substE] using h
+
+theorem substS_preserves_sFresh (X Y : VId) (plug : Pat) (hp : plug.sFresh Y = true) :
+    ∀ p : Pat, p.sFresh Y = true → (substS X plug p).sFresh Y = true := by
+  intro p; induction p with
+  | svar z => intro h; simp only [substS]; split
+              · exact hp
+              · exact h
+  | mu z p ih => intro h; simp only [substS]; split
+                 · exact h
+                 · simp [sFresh] at h ⊢; rcases h with h | h
+                   · exact Or.inl h
+                   · exact Or.inr (ih h)
+  | imp l r ihl ihr => intro h; simp [sFresh] at h; simp [substS, sFresh, ihl h.1, ihr h.2]
+  | app l r ihl ihr => intro h; simp [sFresh] at h; simp [substS, sFresh, ihl h.1, ihr h.2]
+  | ex Y p ih => intro h; simp [sFresh] at h; simp [substS, sFresh, ih h]
+  | _ => intro h; simpa [substS] using h
+
+/-- an element substitution never changes which set variables are free beyond what the plug brings, and vice versa -/
+theorem substE_preserves_sFresh (x Y : VId) (plug : Pat) (hp : plug.sFresh Y = true) :
+    ∀ p : Pat, p.sFresh Y = true → (substE x plug p).sFresh Y = true := by
+  intro p; induction p with
+  | evar z => intro h; simp only [substE]; split
+              · exact hp
+              · exact h
+  | ex z p ih => intro h; simp only [substE]; split
+                 · exact h
+                 · simp [sFresh] at h ⊢; exact ih h
+  | mu Z p ih => intro h; simp [sFresh] at h; simp only [substE, sFresh]; rcases h with h | h
+                 · simp [h]
+                 · simp [ih h]
+  | imp l r ihl ihr => intro h; simp [sFresh] at h; simp [substE, sFresh, ihl h.1, ihr h.2]
+  | app l r ihl ihr => intro h; simp [sFresh] at h; simp [substE, sFresh, ihl h.1, ihr h.2]
+  | _ => intro h; simpa [substE] using h
+
+/-- the textbook substitution keeps concrete patterns concrete (given a concrete plug) -/
+theorem substE_concrete (x : VId) (plug : Pat) (hp : concrete plug = true) :
+    ∀ p : Pat, concrete p = true → concrete (substE x plug p) = true := by
+  intro p; induction p with
+  | evar y => intro _; simp only [substE]; split
+              · exact hp
+              · rfl
+  | ex y p ih => intro hc; simp [concrete] at hc; simp only [substE]; split
+                 · simpa [concrete] using hc
+                 · simp [concrete, ih hc]
+  | imp l r ihl ihr => intro hc; simp [concrete] at hc; simp [substE, concrete, ihl hc.1, ihr hc.2]
+  | app l r ihl ihr => intro hc; simp [concrete] at hc; simp [substE, concrete, ihl hc.1, ihr hc.2]
+  | mu Y p ih => intro hc; simp [concrete] at hc; simp [substE, concrete, ih hc]
+  | _ => intro hc; simpa [substE] using hc
+
+theorem substS_concrete (X : VId) (plug : Pat) (hp : concrete plug = true) :
+    ∀ p : Pat, concrete p = true → concrete (substS X plug p) = true := by
+  intro p; induction p with
+  | svar y => intro _; simp only [substS]; split
+              · exact hp
+              · rfl
+  | mu y p ih => intro hc; simp [concrete] at hc; simp only [substS]; split
+                 · simpa [concrete] using hc
+                 · simp [concrete, ih hc]
+  | imp l r ihl ihr => intro hc; simp [concrete] at hc; simp [substS, concrete, ihl hc.1, ihr hc.2]
+  | app l r ihl ihr => intro hc; simp [concrete] at hc; simp [substS, concrete, ihl hc.1, ihr hc.2]
+  | ex Y p ih => intro hc; simp [concrete] at hc; simp [substS, concrete, ih hc]
+  | _ => intro hc; simpa [substS] using hc
+
+/-- hence substituting twice is substituting once (plug without the variable): all free occurrences were replaced the first time -/
+theorem substE_idempotent (x : VId) (plug p : Pat) (hpc : concrete plug = true) (hp : plug.eFresh x = true)
+    (hc : concrete p = true) : substE x plug (substE x plug p) = substE x plug p :=
+  substE_id_of_fresh x plug _ (substE_concrete x plug hpc p hc) (substE_eliminates x plug hp p hc)
+
+theorem substS_idempotent (X : VId) (plug p : Pat) (hpc : concrete plug = true) (hp : plug.sFresh X = true)
+    (hc : concrete p = true) : substS X plug (substS X plug p) = substS X plug p :=
+  substS_id_of_fresh X plug _ (substS_concrete X plug hpc p hc) (substS_eliminates X plug hp p hc)
+
+/-- the same facts for the checker's own functions: whenever `apply_esubst` / `apply_ssubst` of `rust/src/lib.rs` do not
+reject, the variable is judged fresh (by the checker's own `e_fresh` / `s_fresh`) in what they return, and applying them
+again returns the same pattern or rejects -/
+theorem rust_esubst_eliminates (x : VId) (plug p r : Pat) (hp : plug.eFresh x = true) (hc : concrete p = true)
+    (h : applyESubst x plug p = some r) : r.eFresh x = true := by
+  rw [rust_esubst_textbook x plug p r hc h]; exact substE_eliminates x plug hp p hc
+
+theorem rust_ssubst_eliminates (X : VId) (plug p r : Pat) (hp : plug.sFresh X = true) (hc : concrete p = true)
+    (h : applySSubst X plug p = some r) : r.sFresh X = true := by
+  rw [rust_ssubst_textbook X plug p r hc h]; exact substS_eliminates X plug hp p hc
+
+theorem rust_esubst_idempotent (x : VId) (plug p r r' : Pat) (hpc : concrete plug = true) (hp : plug.eFresh x = true)
+    (hc : concrete p = true) (h : applyESubst x plug p = some r) (h' : applyESubst x plug r = some r') : r' = r := by
+  have e := rust_esubst_textbook x plug p r hc h
+  have e' := rust_esubst_textbook x plug r r' (e ▸ substE_concrete x plug hpc p hc) h'
+  rw [e', e]; exact substE_idempotent x plug p hpc hp hc
+
+theorem rust_ssubst_idempotent (X : VId) (plug p r r' : Pat) (hpc : concrete plug = true) (hp : plug.sFresh X = true)
+    (hc : concrete p = true) (h : applySSubst X plug p = some r) (h' : applySSubst X plug r = some r') : r' = r := by
+  have e := rust_ssubst_textbook X plug p r hc h
+  have e' := rust_ssubst_textbook X plug r r' (e ▸ substS_concrete X plug hpc p hc) h'
+  rw [e', e]; exact substS_idempotent X plug p hpc hp hc
+
+/-- the hypotheses are satisfiable on a pattern with a bound and a free occurrence, and the plug-freshness hypothesis is
+needed: with the variable in the plug a free occurrence is left -/
+example : substE 0 (.sym 7) (.app (.evar 0) (.ex 0 (.evar 0))) = .app (.sym 7) (.ex 0 (.evar 0)) ∧
+    concrete (.app (.evar 0) (.ex 0 (.evar 0))) = true ∧ (Pat.sym 7).eFresh 0 = true := by decide
+theorem eliminates_needs_fresh_plug :
+    (substE 0 (.app (.evar 0) (.evar 0)) (.evar 0)).eFresh 0 = false ∧
+    substE 0 (.app (.evar 0) (.evar 0)) (substE 0 (.app (.evar 0) (.evar 0)) (.evar 0)) ≠ substE 0 (.app (.evar 0) (.evar 0)) (.evar 0) := by
+  decide
+
+
 end C11
